@@ -1,6 +1,7 @@
 import EupsModel.Drv.Util
 import EupsModel.Model.FsEff
 import EupsModel.Model.FsTab
+import EupsModel.Model.FsCache
 namespace EupsModel.Drv.C08
 open Lean EupsModel EupsModel.Drv EupsModel.FsEff
 
@@ -181,6 +182,40 @@ def handle : Handler := fun j => do
   let db : Db := { fs := fs, tabs := tabs }
   let cmd ← cmd2OfJson (← j.getObjVal? "cmd")
   let flavors ← (← jarr j "flavors").mapM natOf
+  -- with "cache_flavors": the product cache is part of the state and of the effects
+  match j.getObjVal? "cache_flavors" with
+  | .ok cf =>
+    let cfl ← (← cf.getArr?).toList.mapM natOf
+    let cfg3 : Cfg3 := { atomic := cfg.atomic }
+    let db3 : Db3 := { fs := fs, tabs := tabs, cache := cfl.map fun f => (CPath.main f, CFile.full 0) }
+    let effs := effects3 cfg3 cfl db3 cmd
+    let tg := targets fs cmd.onRecords
+    let ctmp : Json := Json.arr #[Json.str "ctmp"]
+    let cmain (f : Nat) : Json := Json.arr #[Json.str "cmain", jn f]
+    let ceffToJson : CEff → Json
+      | .creat _ => Json.arr #[Json.str "cache", Json.str "creat", ctmp]
+      | .write _ => Json.arr #[Json.str "cache", Json.str "write", ctmp]
+      | .fsync _ => Json.arr #[Json.str "cache", Json.str "fsync", ctmp]
+      | .close _ _ => Json.arr #[Json.str "cache", Json.str "close", ctmp]
+      | .rename _ f => Json.arr #[Json.str "cache", Json.str "rename", ctmp, cmain f]
+    let eff3ToJson : Eff3 → Json
+      | .onRec e => effToJson e
+      | .onTab e => teffToJson e
+      | .onCache e => ceffToJson e
+    let cacheToJson (t : CacheFs) : Json :=
+      Json.arr (t.filterMap fun (p, c) => match p, c with
+        | .main f, .full _ => some (Json.arr #[jn f, Json.str "complete"])
+        | .main f, .empty => some (Json.arr #[jn f, Json.str "empty"])
+        | _, _ => none).toArray
+    let states := (List.range (effs.length + 1)).map fun k =>
+      let s := crashAt3 cfg3 cfl db3 cmd k
+      Json.mkObj [("fs", fsToJson s.fs), ("tabs", tabsToJson s.tabs), ("cache", cacheToJson s.cache),
+        ("seen", Json.arr (tg.map fun r => seenToJson (read s.fs r)).toArray),
+        ("listing", Json.arr (flavors.map fun f => listingToJson (listing s.fs f)).toArray)]
+    pure (Json.mkObj [("effects", Json.arr (effs.map eff3ToJson).toArray),
+      ("targets", Json.arr (tg.map fun r => Json.arr (rpathToList r).toArray).toArray),
+      ("states", Json.arr states.toArray)])
+  | .error _ =>
   let effs := effects2 cfg db cmd
   let tg := targets fs cmd.onRecords
   let states := (List.range (effs.length + 1)).map fun k =>
